@@ -91,9 +91,17 @@ func (r *DeviceLocal) HandleEvent(payload api.EventPayload) {
 	//revive:disable-next-line
 	switch payload.Data.(type) {
 	case *model.NodeManagementDetailedDiscoveryDataType:
+		// the node management feature of a remote device exists before its
+		// device address is known
+		if feature, ok := payload.Feature.(*FeatureRemote); ok {
+			feature.completeDeviceAddress(remoteDevice.Address())
+		}
 		address := payload.Feature.Address()
 		if address.Device == nil {
-			address.Device = remoteDevice.Address()
+			// do not change the address of the feature in place, Address() hands it out
+			completed := *address
+			completed.Device = remoteDevice.Address()
+			address = &completed
 		}
 		_, _ = r.nodeManagement.SubscribeToRemote(address)
 
